@@ -312,6 +312,37 @@ def run(tier, seed):
             rp = lambda _m, j=job, dd=r["data"]: replay_one(j, dd)
         rep.obligation(name, res, func="generated statement", text=r["label"], replay=rp,
                        candidate=r["data"] is None)
+    # comparisons mixing fixed-point and integer operands: the Stage-A family
+    # of C03 restricted to fixed-point operands, re-proved in this run
+    from contracts import c03_cond as S3
+    from props.c03 import check_program as check_cmp, replay_one as replay_cmp
+    cjobs = [(k, [c]) for c in S3.atoms(tier) if isinstance(c, D.Cmp) and c.mixed_fixed()
+             for k in ("if", "ifelse")]
+    with mp.get_context("fork").Pool(procs) as pool:
+        cres = pool.map(check_cmp, cjobs, chunksize=8)
+    cm = {}
+    for job, r in zip(cjobs, cres):
+        m = cm.setdefault("cmp-" + r["name"], {"seconds": 0.0, "bad": None, "label": r["label"], "n": 0, "rej": 0})
+        m["seconds"] += r["seconds"]
+        m["n"] += 1
+        if r["verdict"] == "rejected":
+            m["rej"] += 1
+        elif r["verdict"] != smt.PROVED and m["bad"] is None:
+            m["bad"] = (job, r)
+    rep.extra["comparison_programs"] = len(cjobs)
+    for name, m in sorted(cm.items()):
+        if m["n"] == m["rej"]:
+            continue
+        if m["bad"] is None:
+            rep.obligation(name, smt.Result(smt.PROVED, "z3-5.1(api)", m["seconds"]),
+                           func="generated construct", text=m["label"])
+            continue
+        (kind, conds), r = m["bad"]
+        rp = None
+        if r["data"] is not None and "regs" in r["data"]:
+            rp = lambda _m, k=kind, c=conds, dd=r["data"]: replay_cmp(k, c, dd)
+        rep.obligation(name, smt.Result(r["verdict"], r["backend"], m["seconds"], r["data"], r["raw"]),
+                       func="generated construct", text=r["label"], replay=rp)
     # lemmas linking the modular formula to exact arithmetic
     x, y = z3.BitVecs("x y", 64)
     P = z3.ZeroExt(64, x) * z3.ZeroExt(64, y)
